@@ -33,8 +33,9 @@ macro_rules! probe {
     ($m:ident, $set:expr, $seed:expr, $cases:expr) => {{
         use fips204::traits::{KeyGen, SerDes, Signer, Verifier};
         use fips204::Ph;
-        let mut d = Sha256::new();
+        let mut outer = Sha256::new();
         for i in 0..$cases {
+            let mut d = Sha256::new();
             let xi = h("xi", $seed, $set, i, 0);
             let mfull = h("m", $seed, $set, i, 0);
             let m = &mfull[..(i as usize * 7) % 33];
@@ -71,8 +72,10 @@ macro_rules! probe {
                 let v3 = ver(&m2, &sig);
                 d.update([u8::from(v1), u8::from(v2), u8::from(v3)]);
             }
+            let di: [u8; 32] = d.finalize().into();
+            outer.update(di);
         }
-        let out: [u8; 32] = d.finalize().into();
+        let out: [u8; 32] = outer.finalize().into();
         println!("set={} digest={}", $set, hex(&out));
         #[cfg(feature = "dudect")]
         {
